@@ -16,8 +16,8 @@ open Sidetree Sidetree.Parser Sidetree.Client
 variable (H : HashFam) (cfg : Protocol) (orc : Oracles)
 
 open Sidetree.Framing in
-/-- **update, with an anchoring window** (both bounds below 2^53 in magnitude): unconditional**: built by `NewUpdateRequest` without a window, signed by a fitting
-    signer with an allowed key ⇒ accepted -/
+/-- **update, with an anchoring window** (both bounds of magnitude at most 2^53): built by
+    `NewUpdateRequest`'s core, signed by a fitting signer with an allowed key ⇒ accepted -/
 theorem update_built_accepted_windowed (ok : HashOK H) (i : UpdateInfo) (req : Json) (k : Jwk) (s : Signer)
     (hdrs : List (String × Json))
     (hb : newUpdateRequestCore H i = some req) (hk : i.updateKey = some k) (hsg : i.signer = some s)
@@ -162,14 +162,15 @@ theorem recover_built_accepted_windowed (ok : HashOK H) (i : RecoverInfo) (req :
   exact recover_reads_back_window H cfg k dh i.recoveryCommitment ao s hdrs compact _ _ sf su rf ru hsm fit hkey hmok hrc hfresh
 
 
-/-- the builders themselves: whatever `NewUpdateRequest` returns for a window strictly inside
-    ±2^53 falls under `update_built_accepted_windowed` (the guard `windowExact` admits it) -/
+/-- the builders' window guard is exactly the window hypothesis of the `…_windowed` theorems
+    (bounds inclusive) -/
 theorem windowExact_iff_natAbs (af au : Int) :
     windowExact af au = true ↔ (af.natAbs ≤ 2 ^ 53 ∧ au.natAbs ≤ 2 ^ 53) := by
   rw [windowExact_iff]; omega
 
 /-- **`NewUpdateRequest` itself**: whatever the builder returns — it has then passed its own window
-    guard — is accepted, with no condition on the window left -/
+    guard — is accepted, with no condition on the window left (the other hypotheses of
+    `update_built_accepted_windowed` remain; the driver evaluates them on every step the stream builds) -/
 theorem newUpdateRequest_accepted (ok : HashOK H) (i : UpdateInfo) (req : Json) (k : Jwk) (s : Signer)
     (hdrs : List (String × Json))
     (hb : newUpdateRequest H i = some req) (hk : i.updateKey = some k) (hsg : i.signer = some s)
